@@ -47,6 +47,10 @@ def main(argv):
     ap.add_argument("--runs", type=int, default=None)
     ap.add_argument("--jobs", type=int, default=None)
     ap.add_argument("--no-determinism-prefix", action="store_true")
+    ap.add_argument("--focus", default=None, help="developer aid: restrict the scenarios of an engine that supports it")
     a = ap.parse_args(argv)
     eng = engines.for_property(a.prop)
+    if a.focus:
+        eng.focus = a.focus
+        os.environ["BSIM_NO_DETERMINISM_PREFIX"] = "1"
     return runner.run_check(eng, a.tier, jobs=a.jobs, runs=a.runs)
